@@ -732,16 +732,6 @@ emit_step(const Case& c, const StepRec& r, const V& d0, int start, bool levelB, 
           const double zdoc = static_cast<double>(c.alpha) / (1. + static_cast<double>(c.gamma) * n_full);
           if (std::fabs(zmed - zdoc) > (2e-4 + zmed_err) * zdoc)
             {
-              const double znext = static_cast<double>(c.alpha) / (1. + static_cast<double>(c.gamma) * (n_full + 1));
-              if (r.k % c.nsub == 0 && std::fabs(zmed - znext) <= (2e-4 + zmed_err) * znext)
-                known("relaxation:last-subiteration-of-each-full-iteration-uses-next-n",
-                      "OSSPSReconstruction::update_estimate computes the relaxation from subiteration_num / num_subsets with the 1-based "
-                      "sub-iteration counter, so the LAST sub-iteration of full iteration n (k = (n+1) num_subsets) already uses "
-                      "alpha/(1+gamma (n+1)) instead of alpha/(1+gamma n); zeta is not constant within a full iteration and with one "
-                      "subset the first iteration is relaxed by alpha/(1+gamma). Recovered zeta "
-                          + vh::hex(zmed) + " expected " + vh::hex(zdoc) + " at sub-iteration " + std::to_string(r.k) + " with "
-                          + std::to_string(c.nsub) + " subsets");
-              else
                 ofail("relaxation is not alpha/(1+gamma n): recovered " + vh::hex(zmed) + " expected " + vh::hex(zdoc) + " n "
                       + std::to_string(n_full));
             }
@@ -1128,13 +1118,6 @@ run_case(Case c, bool levelB, bool restarts, bool expect_err)
                 // requested explicitly by the user (OFF by default in OSSPS): not a violation of the property as stated
                 hist["resume_differs_because_enforce_initial_positivity_requested"]++;
             }
-          else if (prior_nonzero && nonident_nonzero)
-            known("restart:fill-nonidentifiable-rezeroes-penalty-driven-voxels",
-                  "resuming OSSPS from a saved iterate does not reproduce the uninterrupted run when a prior is used and some voxel has zero "
-                  "sensitivity: update_estimate zeroes non-identifiable voxels (fill_nonidentifiable_target_parameters) at the first "
-                  "sub-iteration of EVERY run, but afterwards the penalty gradient moves them away from 0, so the resumed run starts "
-                  "from a different image (first differing sub-iteration "
-                      + std::to_string(first_diff) + ")");
           else
             ofail("resumed run differs from the uninterrupted run at sub-iteration " + std::to_string(first_diff));
           g_ctx = save_ctx;
